@@ -1,6 +1,8 @@
 import ZapVerif.Proofs.EntryWF
 import ZapVerif.Gen.JsonAdd
 import ZapVerif.Model.SubEnc
+import ZapVerif.Proofs.TransJsonSep
+import ZapVerif.Proofs.TransEscape
 /-! # C01 — the JSON encoder always emits one well-formed JSON object per entry, on one line
 
 Model: `Model/Esc.lean` (escaping), `Model/Enc.lean` (the streaming encoder over call trees), `Model/Entry.lean`
@@ -176,5 +178,294 @@ example : ∃ ms, jsonLine ⟨[109], [108], [116], [110], [99], [], [], [], fals
 
 end SubEncoders
 /-! ## (END block `subenc`) -/
+
+end ZapVerif.C01
+
+/-! ## the model's separator logic IS the source (Go→GoMini translation, docs/TRANSLATOR.md)
+
+`Gen/TransJsonSep.lean` holds the bodies of `addElementSeparator`, `addKey` and `closeOpenNamespaces` as read from
+zapcore/json_encoder.go on this run, as GoMini terms.  The theorems below run them in the GoMini interpreter on ALL
+inputs (any buffer, any key, spaced or not, any number of open namespaces) and get exactly `Enc.sep`, `Enc.addKey`
+and the closing braces `runO`/`encodeEntry` append — the functions `stream_eq_out` is stated over.  A behaviour
+change of one of the Go functions changes the generated term and breaks the corresponding proof.
+Hypothesis: lengths fit Go's `int` (`< 2^63`).  `safeAddString` is an intrinsic here (it appends `esc key`). -/
+namespace ZapVerif.C01
+set_option linter.unusedSimpArgs false
+open ZapVerif ZapVerif.Esc ZapVerif.Enc ZapVerif.GoMini ZapVerif.TransJsonSep ZapVerif.Gen.TransJsonSep
+
+/-- body of `addElementSeparator`: ends (by `return` or by falling off the end) with `buf = sep sp buf`;
+    neither the index expression `enc.buf.Bytes()[last]` nor anything else can panic -/
+theorem addElementSeparator_exec_matches_source (buf : Bytes) (sp : Bool) (n : Int) (fuel : Nat) (hl : buf.length < 2^63) :
+    (exec X (fuel + 1) addElementSeparator_body ⟨[], encFld buf sp n⟩).fin = some ([], encFld (sep sp buf) sp n) := by
+  rw [exec_succ]
+  rcases List.eq_nil_or_concat buf with rfl | ⟨l, b, rfl⟩
+  · simp [addElementSeparator_body, wrap, sep]
+  · have hw : wrap .int (l.length : Int) = l.length := by
+      rw [wrap_int_id] <;> simp at hl ⊢ <;> omega
+    have hnn : ¬ ((l.length : Int) < 0) := by omega
+    have e1 : ((b.toNat : Int) = 123) ↔ b = 123 := by simpa using byte_eq_lit b 123 (by decide)
+    have e2 : ((b.toNat : Int) = 91) ↔ b = 91 := by simpa using byte_eq_lit b 91 (by decide)
+    have e3 : ((b.toNat : Int) = 58) ↔ b = 58 := by simpa using byte_eq_lit b 58 (by decide)
+    have e4 : ((b.toNat : Int) = 44) ↔ b = 44 := by simpa using byte_eq_lit b 44 (by decide)
+    have e5 : ((b.toNat : Int) = 32) ↔ b = 32 := by simpa using byte_eq_lit b 32 (by decide)
+    simp only [addElementSeparator_body, sep, skip]
+    simp [hw, hnn, indexVal_concat, Res.out_ite, Out.catchBrk_ite, Out.fin_ite, e1, e2, e3, e4, e5]
+    by_cases h1 : b = 123 <;> by_cases h2 : b = 91 <;> by_cases h3 : b = 58 <;> by_cases h4 : b = 44 <;>
+      by_cases h5 : b = 32 <;> cases sp <;> simp [h1, h2, h3, h4, h5]
+
+/-- `enc.addElementSeparator()` ≡ `Enc.sep`: for every buffer, the last byte decides -/
+theorem addElementSeparator_matches_source (buf : Bytes) (sp : Bool) (n : Int) (fuel : Nat) (hl : buf.length < 2^63) :
+    run X (fuel + 1) "addElementSeparator" [] (encFld buf sp n) = .done [] (encFld (sep sp buf) sp n) :=
+  run_of_fin X _ _ addElementSeparator [] _ _ _ rfl rfl (addElementSeparator_exec_matches_source buf sp n fuel hl)
+
+/-- body of `addKey` (calls the translated `addElementSeparator`) -/
+theorem addKey_exec_matches_source (buf k : Bytes) (sp : Bool) (n : Int) (fuel : Nat) (hl : buf.length < 2^63) :
+    (exec X (fuel + 2) addKey_body ⟨[("p0", .bytes k)], encFld buf sp n⟩).fin =
+      some ([], encFld (Enc.addKey sp buf k) sp n) := by
+  have hsep : ∀ σ : State, retK σ [] "addElementSeparator"
+      (exec X (fuel + 1) addElementSeparator_body ⟨[], encFld buf sp n⟩) = .normal { σ with fld := encFld (sep sp buf) sp n } :=
+    fun σ => retK_of_fin0 σ _ _ _ (addElementSeparator_exec_matches_source buf sp n fuel hl)
+  rw [exec_succ]
+  cases sp <;> simp [addKey_body, hsep, Enc.addKey, colon]
+
+/-- `enc.addKey(key)` ≡ `Enc.addKey`: separator, quoted escaped key, colon (and a space when spaced) -/
+theorem addKey_matches_source (buf k : Bytes) (sp : Bool) (n : Int) (fuel : Nat) (hl : buf.length < 2^63) :
+    run X (fuel + 2) "addKey" [.bytes k] (encFld buf sp n) = .done [] (encFld (Enc.addKey sp buf k) sp n) :=
+  run_of_fin X _ _ addKey [.bytes k] _ _ _ rfl rfl (addKey_exec_matches_source buf k sp n fuel hl)
+
+/-- the loop of `closeOpenNamespaces` appends one `}` per open namespace -/
+theorem closeOpenNamespaces_loop_matches_source (buf : Bytes) (sp : Bool) (n : Nat) (hn : n < 2^63) (fuel : Nat) :
+    execS X (exec X (fuel + n + 0)) closeOpenNamespaces_loop0 ⟨[("l0", .int (0 : Nat))], encFld buf sp n⟩ =
+      .normal ⟨[("l0", .int n)], encFld (buf ++ List.replicate n 125) sp n⟩ := by
+  unfold closeOpenNamespaces_loop0
+  refine (loop_fold (α := Nat × Bytes) X _ _ _ 0
+    (fun a => ⟨[("l0", .int a.1)], encFld a.2 sp n⟩) (fun a => a.1 ≤ n) (fun a => decide (a.1 < n))
+    (fun a => (a.1 + 1, a.2 ++ [125])) (fun a => (n, a.2 ++ List.replicate (n - a.1) 125)) (fun a => n - a.1)
+    ?_ ?_ ?_ ?_ ?_ ?_ n (0, buf) fuel (Nat.zero_le n) (by simp)).trans (by simp)
+  · intro a _; simp
+  · intro a fuel _ hc
+    have hc' : a.1 < n := by simpa using hc
+    have hw : wrap .int ((a.1 : Int) + 1) = ((a.1 + 1 : Nat) : Int) := by
+      rw [wrap_int_id] <;> simp at hn ⊢ <;> omega
+    simp [hw]
+  · intro a ha hc
+    have : a.1 < n := by simpa using hc
+    show a.1 + 1 ≤ n
+    omega
+  · intro a ha hc
+    have : a.1 < n := by simpa using hc
+    show n - (a.1 + 1) < n - a.1
+    omega
+  · intro a ha hc
+    have h1 : ¬ a.1 < n := by simpa using hc
+    have h2 : a.1 ≤ n := ha
+    have : a.1 = n := by omega
+    obtain ⟨i, b⟩ := a
+    simp_all
+  · intro a ha hc
+    have h1 : a.1 < n := by simpa using hc
+    obtain ⟨i, b⟩ := a
+    simp only [Prod.mk.injEq, true_and, List.append_assoc]
+    have : n - i = (n - (i + 1)) + 1 := by simp at h1; omega
+    rw [this, List.replicate_succ]; simp
+
+/-- `enc.closeOpenNamespaces()` ≡ what `runO` (`OC.obj`, `AC.obj`) and `encodeEntry` do with `openNs`:
+    append `openNs` closing braces and reset the counter; `fuel + n + 1` units of fuel suffice -/
+theorem closeOpenNamespaces_matches_source (buf : Bytes) (sp : Bool) (n : Nat) (hn : n < 2^63) (fuel : Nat) :
+    run X (fuel + n + 1) "closeOpenNamespaces" [] (encFld buf sp n) =
+      .done [] (encFld (buf ++ List.replicate n 125) sp 0) := by
+  refine run_of_fin X _ _ closeOpenNamespaces [] _ _ _ rfl rfl ?_
+  show (exec X (fuel + n + 1) closeOpenNamespaces_body ⟨[], encFld buf sp n⟩).fin = _
+  rw [exec_succ]
+  have := closeOpenNamespaces_loop_matches_source buf sp n hn fuel
+  simp at this
+  simp [closeOpenNamespaces_body, this]
+
+/-- non-vacuity / sanity: the interpreter really runs the generated term (closed instance, by evaluation) -/
+example : run X 3 "addKey" [.bytes [107]] (encFld [123, 34, 97, 34, 58, 49] true 0) =
+    .done [] (encFld [123, 34, 97, 34, 58, 49, 44, 32, 34, 107, 34, 58, 32] true 0) := by
+  have := addKey_matches_source [123, 34, 97, 34, 58, 49] [107] true 0 1 (by decide)
+  simpa [Enc.addKey, sep, skip, colon, esc, escape, plain] using this
+
+end ZapVerif.C01
+
+/-! ## the model's escaping IS the source
+
+`Gen/TransEscape.lean` holds `safeAppendStringLike` (the generic function behind `safeAddString` and
+`safeAddByteString`, at its string instance) as read from zapcore/json_encoder.go on this run.  The theorem runs it on
+EVERY byte string — invalid UTF-8, control characters, quotes, any length — and gets exactly `Esc.escape`, the function
+`escape_body_safe` is about.  `utf8.DecodeRune` is the intrinsic `Esc.validLen` (the validity model of unicode/utf8);
+`appendTo` is `(*buffer.Buffer).AppendString`.  No index or slice expression of the loop can panic. -/
+namespace ZapVerif.C01
+set_option linter.unusedSimpArgs false
+open ZapVerif ZapVerif.Esc ZapVerif.GoMini ZapVerif.TransEscape ZapVerif.Gen.TransEscape
+
+/-- loop variables `r`, `size` of the last `decodeRune` (absent before the first one) -/
+def eTail : Option (Int × Int) → Env
+  | none => []
+  | some (r, n) => [("l2", .int r), ("l3", .int n)]
+
+/-- the state of `safeAppendStringLike` at the loop head -/
+def eAbs (fa fd : Val) (s : Bytes) (a : St × Option (Int × Int)) : State :=
+  ⟨[("p0", fa), ("p1", fd), ("p2", .bytes a.1.2.2), ("p3", .bytes s), ("l0", .int a.1.1), ("l1", .int a.1.2.1)] ++ eTail a.2, []⟩
+
+/-- the abstract step with the loop variables it leaves behind -/
+def eNext (s : Bytes) (a : St × Option (Int × Int)) : St × Option (Int × Int) :=
+  (stepE s a.1,
+   if s.getD a.1.2.1 0 ≥ 128 then
+     (match validLen (s.drop a.1.2.1) with
+      | some n => some (0, (n : Int))
+      | none => some (65533, 1))
+   else a.2)
+
+/-- one iteration of the escape loop is `TransEscape.stepE` (`k` is the continuation: the rest of the loop) -/
+theorem safeAppendStringLike_iter_matches_source (fa fd : Val) (buf s : Bytes)
+    (hs : (s.length : Int) < 9223372036854775808) (a : St × Option (Int × Int)) (rec : Stmt → State → GoMini.Out)
+    (k : State → GoMini.Out) (hinv : InvE buf s a.1) (hc : a.1.2.1 < s.length) :
+    (execS X rec safeAppendStringLike_loop0.lbody (eAbs fa fd s a)).loopBody
+      (fun σ' => (execS X rec safeAppendStringLike_loop0.lpost σ').loopPost k) = k (eAbs fa fd s (eNext s a)) := by
+  obtain ⟨⟨last, i, out⟩, t⟩ := a
+  obtain ⟨h1, h2, h3⟩ := hinv
+  simp only at h1 h2 hc
+  have hg : s.getD i 0 = s[i] := by simp [hc]
+  have hg' : s[i]?.getD 0 = s[i] := by simp [hc]
+  have hidx := indexVal_bytes s i hc
+  have hw1 : wrap .int ((i : Int) + 1) = ((i + 1 : Nat) : Int) := by rw [wrap_int_id] <;> omega
+  have hge : ((s[i].toNat : Int) ≥ 128) ↔ s[i] ≥ 128 := by simpa using byte_ge_lit s[i] 128 (by decide)
+  have hslice : (0 : Int) ≤ last ∧ (last : Int) ≤ i ∧ (i : Int) ≤ s.length := by omega
+  by_cases hb : s[i] ≥ 128
+  · have hb2 : (128 : Int) ≤ s[i].toNat := by have := hge.mpr hb; omega
+    have htake : s.take s.length = s := List.take_length
+    have hbnd : (0 : Int) ≤ i ∧ (i : Int) ≤ s.length := by omega
+    have hsl : sliceVal (.bytes s) (last : Int) (i : Int) = .ok (.bytes ((s.take i).drop last)) := by
+      simp [sliceVal_bytes, hslice]
+    cases hv : validLen (s.drop i) with
+    | none =>
+      have hext : ext "decodeRune" [.bytes (s.drop i)] = some [.int 65533, .int 1] := by rw [ext_decode, hv]
+      cases t <;>
+        simp [safeAppendStringLike_loop0, Stmt.lbody, Stmt.lpost, eAbs, eTail, eNext, stepE, hg, hg', hidx, hb, hb2,
+          hw1, hsl, sliceVal_bytes, hslice, hbnd, htake, hext, hv]
+    | some n =>
+      have hbd := validLen_bounds _ _ hv
+      have hdl : (s.drop i).length = s.length - i := by simp
+      have hext : ext "decodeRune" [.bytes (s.drop i)] = some [.int 0, .int n] := by rw [ext_decode, hv]
+      have hwn : wrap .int ((i : Int) + n) = ((i + n : Nat) : Int) := by rw [wrap_int_id] <;> omega
+      cases t <;>
+        simp [safeAppendStringLike_loop0, Stmt.lbody, Stmt.lpost, eAbs, eTail, eNext, stepE, hg, hg', hidx, hb, hb2,
+          hwn, hsl, sliceVal_bytes, hslice, hbnd, htake, hext, hv]
+  · have hb' : ¬ ((s[i].toNat : Int) ≥ 128) := by rw [hge]; exact hb
+    have hb'' : ¬ (128 : Int) ≤ s[i].toNat := hb'
+    have h32 : ((s[i].toNat : Int) ≥ 32) ↔ s[i] ≥ 32 := by simpa using byte_ge_lit s[i] 32 (by decide)
+    have e92 : ((s[i].toNat : Int) = 92) ↔ s[i] = 92 := by simpa using byte_eq_lit s[i] 92 (by decide)
+    have e34 : ((s[i].toNat : Int) = 34) ↔ s[i] = 34 := by simpa using byte_eq_lit s[i] 34 (by decide)
+    by_cases hp : plain s[i] = true
+    · have hp' := hp
+      simp only [plain, Bool.and_eq_true, decide_eq_true_eq, bne_iff_ne] at hp'
+      have q1 : (32 : Int) ≤ s[i].toNat := by have := h32.mpr hp'.1.1; omega
+      have q2 : ¬ ((s[i].toNat : Int) = 92) := by rw [e92]; exact hp'.1.2
+      have q3 : ¬ ((s[i].toNat : Int) = 34) := by rw [e34]; exact hp'.2
+      cases t <;>
+        simp [safeAppendStringLike_loop0, Stmt.lbody, Stmt.lpost, eAbs, eTail, eNext, stepE, hg, hg', hidx, hb, hb'', hp, q1, q2, q3, hw1]
+    · have hnp : plain s[i] = false := by simpa using hp
+      have hsl : sliceVal (.bytes s) (last : Int) (i : Int) = .ok (.bytes ((s.take i).drop last)) := by
+        simp [sliceVal_bytes, hslice]
+      have hmk : ∀ v : UInt8, s[i] = v → indexVal (Val.bytes s) (Val.int ↑i) = Res.ok (Val.int ↑v.toNat) := by
+        intro v hv; rw [hidx, hv]
+      by_cases h92 : s[i] = 92
+      · have hi92 := hmk 92 h92
+        have hpl : plain 92 = false := by decide
+        cases t <;>
+          simp [safeAppendStringLike_loop0, Stmt.lbody, Stmt.lpost, eAbs, eTail, eNext, stepE, hg, hg', hi92, hb, hnp,
+            hw1, hsl, sliceVal_bytes, hslice, h92, esc1, hpl]
+      by_cases h34 : s[i] = 34
+      · have hi34 := hmk 34 h34
+        have hpl : plain 34 = false := by decide
+        cases t <;>
+          simp [safeAppendStringLike_loop0, Stmt.lbody, Stmt.lpost, eAbs, eTail, eNext, stepE, hg, hg', hi34, hb, hnp,
+            hw1, hsl, sliceVal_bytes, hslice, h34, esc1, hpl]
+      by_cases h10 : s[i] = 10
+      · have hi10 := hmk 10 h10
+        have hpl : plain 10 = false := by decide
+        cases t <;>
+          simp [safeAppendStringLike_loop0, Stmt.lbody, Stmt.lpost, eAbs, eTail, eNext, stepE, hg, hg', hi10, hb, hnp,
+            hw1, hsl, sliceVal_bytes, hslice, h10, esc1, hpl]
+      by_cases h13 : s[i] = 13
+      · have hi13 := hmk 13 h13
+        have hpl : plain 13 = false := by decide
+        cases t <;>
+          simp [safeAppendStringLike_loop0, Stmt.lbody, Stmt.lpost, eAbs, eTail, eNext, stepE, hg, hg', hi13, hb, hnp,
+            hw1, hsl, sliceVal_bytes, hslice, h13, esc1, hpl]
+      by_cases h9 : s[i] = 9
+      · have hi9 := hmk 9 h9
+        have hpl : plain 9 = false := by decide
+        cases t <;>
+          simp [safeAppendStringLike_loop0, Stmt.lbody, Stmt.lpost, eAbs, eTail, eNext, stepE, hg, hg', hi9, hb, hnp,
+            hw1, hsl, sliceVal_bytes, hslice, h9, esc1, hpl]
+      · have hlt32 : ¬ s[i] ≥ 32 := by
+          intro h
+          have : plain s[i] = true := by simp [plain, h, h92, h34]
+          exact hp this
+        have q1 : ¬ ((32 : Int) ≤ s[i].toNat) := by
+          intro h; exact hlt32 (h32.mp h)
+        have e10 : ((s[i].toNat : Int) = 10) ↔ s[i] = 10 := by simpa using byte_eq_lit s[i] 10 (by decide)
+        have e13 : ((s[i].toNat : Int) = 13) ↔ s[i] = 13 := by simpa using byte_eq_lit s[i] 13 (by decide)
+        have e9 : ((s[i].toNat : Int) = 9) ↔ s[i] = 9 := by simpa using byte_eq_lit s[i] 9 (by decide)
+        have hh := hex_hi_val s[i]
+        have hl := hex_lo_val s[i]
+        simp only [hexlit] at hh hl
+        push_cast at hh hl
+        have hesc : esc1 s[i] = [92, 117, 48, 48, hexd (s[i] >>> 4), hexd (s[i] &&& 15)] := by
+          simp [esc1, h92, h34, h10, h13, h9]
+        cases t <;>
+          simp [safeAppendStringLike_loop0, Stmt.lbody, Stmt.lpost, eAbs, eTail, eNext, stepE, hg, hg', hidx, hb, hnp,
+            hw1, hsl, sliceVal_bytes, hslice, q1, hb'', e92, e34, e10, e13, e9, h92, h34, h10, h13, h9, hh, hl, hesc]
+
+/-- `safeAppendStringLike(appendTo, decodeRune, buf, s)` ≡ `buf ++ Esc.escape s` — the JSON string escaping the
+    encoder applies to every key and string value — for EVERY byte string `s`; `fuel + len(s) + 1` suffices -/
+theorem safeAppendStringLike_matches_source (fa fd : Val) (buf s : Bytes) (fuel : Nat)
+    (hs : (s.length : Int) < 9223372036854775808) :
+    run X (fuel + s.length + 1) "safeAppendStringLike" [fa, fd, .bytes buf, .bytes s] [] =
+      .done [.bytes (buf ++ escape s.length s)] [] := by
+  refine run_of_fin X _ _ Gen.TransEscape.safeAppendStringLike [fa, fd, .bytes buf, .bytes s] _ _ _ rfl rfl ?_
+  show (exec X (fuel + s.length + 1) safeAppendStringLike_body
+    ⟨[("p0", fa), ("p1", fd), ("p2", .bytes buf), ("p3", .bytes s)], []⟩).fin = _
+  rw [exec_succ]
+  have hL : safeAppendStringLike_loop0 = .loop safeAppendStringLike_loop0.lcond safeAppendStringLike_loop0.lpost
+      safeAppendStringLike_loop0.lbody := rfl
+  obtain ⟨a', hrun, hinv', hcnd'⟩ := loop_inv (α := St × Option (Int × Int)) X
+    safeAppendStringLike_loop0.lcond safeAppendStringLike_loop0.lpost safeAppendStringLike_loop0.lbody 0
+    (eAbs fa fd s) (fun a => InvE buf s a.1) (fun a => decide (a.1.2.1 < s.length)) (eNext s) (fun a => s.length - a.1.2.1)
+    (by
+      intro a _
+      obtain ⟨⟨last, i, out⟩, t⟩ := a
+      cases t <;> simp [safeAppendStringLike_loop0, Stmt.lcond, eAbs, eTail])
+    (by
+      intro a fuel ha hc
+      exact safeAppendStringLike_iter_matches_source fa fd buf s hs a _ _ ha (by simpa using hc))
+    (by
+      intro a ha hc
+      exact (InvE_step buf s a.1 ha (by simpa using hc)).1)
+    (by
+      intro a ha hc
+      have hlt : a.1.2.1 < s.length := by simpa using hc
+      have h := InvE_step buf s a.1 ha hlt
+      have h2 : (stepE s a.1).2.1 ≤ s.length := h.1.2.1
+      show s.length - (stepE s a.1).2.1 < s.length - a.1.2.1
+      omega)
+    s.length ((0, 0, buf), none) fuel (InvE_init buf s) (by simp)
+  rw [← hL] at hrun
+  obtain ⟨⟨last, i, out⟩, t⟩ := a'
+  have hfin := InvE_final buf s (last, i, out) hinv' (by simpa using hcnd')
+  obtain ⟨h1, h2, -⟩ := hinv'
+  simp only at h1 h2 hfin
+  have htake : s.take s.length = s := List.take_length
+  have hbnd : (0 : Int) ≤ last ∧ (last : Int) ≤ s.length := by omega
+  have hrun' : execS X (exec X (fuel + s.length))
+      safeAppendStringLike_loop0
+      ⟨[("p0", fa), ("p1", fd), ("p2", .bytes buf), ("p3", .bytes s), ("l0", .int 0), ("l1", .int 0)], []⟩ =
+        .normal (eAbs fa fd s ((last, i, out), t)) := by
+    simpa [eAbs, eTail] using hrun
+  cases t <;>
+    simp [safeAppendStringLike_body, hrun', eAbs, eTail, sliceVal_bytes, hbnd, htake, hfin, G]
 
 end ZapVerif.C01
